@@ -39,6 +39,7 @@ def make_watcher(rn, keys):
     finally:
         sys.argv = argv
     w.network_thread = FakeThread(rn.lp)
+    w.coinstate = rn.cm.coinstate          # as __call__ does (the chain read from disk, handed to the networking peer)
     w.wallet = FakeWallet(keys)
     w.public_key = keys.pks[0]
     sent = []
@@ -46,7 +47,7 @@ def make_watcher(rn, keys):
     class Q:
         def put(self, x):
             sent.append(x)
-    w.send_queues = [Q()]
+    w.send_queues = [Q(), Q()]
     w.sent = sent
     w.hash_stats = {}
     w.args.quiet = True
@@ -54,6 +55,100 @@ def make_watcher(rn, keys):
     mining.save_wallet = lambda wallet: None
     mining.print = lambda *a, **k: None
     return w
+
+
+def winning_nonce(cm, pool, pk, clock, start, tries=4000):
+    """a nonce for which the block prescribed by (head, pool, key, clock) has an id below target"""
+    cs = cm.coinstate
+    ts = max(clock, cs.head().timestamp + 1)
+    for nonce in range(start, start + tries):
+        summary, height, txs = consensus.construct_block_pow_evidence_input(
+            cs, list(pool), SECP256k1PublicKey(pk), ts, b'', nonce)
+        sh = consensus.construct_summary_hash(summary, height)
+        ev = consensus.construct_pow_evidence_after_scrypt(sh, cs, summary, height, txs)
+        b = Block(BlockHeader(summary, ev), txs)
+        if b.hash() < b.target:
+            return nonce
+    return None
+
+
+def two_miners(ctx, res, rng, keys, tree, rn, w, ops, impl, sig_mark, si):
+    """two miner processes: miner 0 is given a candidate on head H; a block N from the network moves the head; miner 1
+    is given a candidate (this refreshes the watcher's shared state); then miner 0's answer arrives and is a solution:
+    the block on H must still be completed, validated, adopted into the served state (a fork next to N), stored and
+    broadcast"""
+    cm = rn.cm
+    head = cm.coinstate.current_chain_hash
+    hd = cm.coinstate.block_by_hash[head]
+    if tree.cs.current_chain_hash != head or head not in tree.own:
+        return
+    clock = hd.timestamp + 50
+    node.CLOCK[0] = clock
+    w.public_key = keys.pks[rng.randrange(0, 5)]
+    found = winning_nonce(cm, list(cm.transaction_pool), w.public_key, clock, rng.randrange(0, 1 << 20))
+    if found is None:
+        res.count("two_miners:no-nonce")
+        return
+    w.sent.clear()
+    try:
+        w.handle_request_scrypt_input_message(0, found)
+    except Exception as e:
+        res.violations.append({"kind": "assembling a candidate raised", "error": repr(e), "scenario": si})
+        return
+    summary, height = w.sent[-1][1]
+    txs = w.mining_args[0][-1]
+    sh = consensus.construct_summary_hash(summary, height)
+    ev = consensus.construct_pow_evidence_after_scrypt(sh, w.coinstate, summary, height, txs)
+    cand = Block(BlockHeader(summary, ev), txs)
+    if not cand.hash() < cand.target:
+        res.count("two_miners:candidate-differs-from-prediction")
+        return
+    ops.append("node cand %s %d %d" % (w.public_key.hex(), clock, found))
+    impl.append("ok %s %d %s" % (summary.serialize().hex(), height, ",".join(t.hash()[:8].hex() for t in txs)))
+    # the head moves
+    nb = tree.extend(head, n_tx=0, dt=3)
+    r = rn.deliver_block(1, nb, 0)
+    ops.extend(keys.oracle_lines(sig_mark))
+    impl.extend(["ok"] * (len(keys.oracle) - sig_mark))
+    ops.append("node block 1 0 %s %d" % (hx(nb.serialize()), clock))
+    impl.append(r)
+    if rn.cm.coinstate.current_chain_hash != nb.hash():
+        res.count("two_miners:head-did-not-move")
+    # miner 1 asks for work
+    w.handle_request_scrypt_input_message(1, rng.randrange(0, 1 << 20))
+    ops.append("node refresh")
+    impl.append("ok")
+    before_frames = [list(rn.outbox_kinds(p)) for p in rn.peers]
+    info = {"scenario": si, "block": cand.serialize().hex(), "network_block": nb.serialize().hex(),
+            "kind_of_run": "two miners, head moved between request and answer"}
+    try:
+        w.handle_scrypt_output_message(0, sh)
+        rr = "ret"
+    except Exception as e:
+        rr = "exc"
+        res.violations.append({**info, "kind": "completing a winning candidate raised after the head had moved: %r" % e})
+    ops.append("node found %s %d" % (sh.hex(), clock))
+    impl.append("%s %s" % (rr, cand.serialize().hex()))
+    ops.append("node digest")
+    impl.append(rn.digest())
+    res.case(("two-miners", si, cand.hash()), nontrivial=True)
+    res.count("two_miners:run")
+    if rr == "ret":
+        served = rn.cm.coinstate
+        if cand.hash() not in served.block_by_hash:
+            res.violations.append({**info, "kind": "a winning candidate answered after the head had moved is not part of the "
+                                                   "served chain state"})
+        if nb.hash() not in served.block_by_hash:
+            res.count("two_miners:network-block-dropped")
+        if cand.hash() not in rn.disk_ids() or rn.store.write_buffer:
+            res.violations.append({**info, "kind": "the found block was not written to the block store"})
+        for pi, p in enumerate(rn.peers):
+            newf = rn.outbox_kinds(p)[len(before_frames[pi]):]
+            wantf = ["B:%s:0" % cand.hash()[:8].hex()] if (p.hello_sent and p.hello_received) else []
+            if newf != wantf:
+                res.violations.append({**info, "kind": "broadcast: peer %d got %s expected %s" % (pi, newf, wantf)})
+        if cand.hash() in served.block_by_hash:
+            tree.adopt(cand)
 
 
 def run(ctx):
@@ -76,6 +171,18 @@ def run(ctx):
         sig_mark = len(keys.oracle)
         for round_ in range(ctx.scale(8, 14)):
             cm = rn.cm
+            if round_ > 0 and rng.random() < 0.4 and cm.coinstate.current_chain_hash in tree.own:
+                # the head moves between two mining rounds: a block from the network, possibly dated a little ahead
+                # of the clock the next round runs with
+                nb = tree.extend(cm.coinstate.current_chain_hash, n_tx=0, dt=rng.randrange(1, 60))
+                node.CLOCK[0] = nb.timestamp
+                rr = rn.deliver_block(1, nb, 0)
+                ops.extend(keys.oracle_lines(sig_mark))
+                impl.extend(["ok"] * (len(keys.oracle) - sig_mark))
+                sig_mark = len(keys.oracle)
+                ops.append("node block 1 0 %s %d" % (hx(nb.serialize()), nb.timestamp))
+                impl.append(rr)
+                res.count("head_moved_by_network_block")
             head = cm.coinstate.current_chain_hash
             hd = cm.coinstate.block_by_hash[head]
             utxo = cm.coinstate.unspent_transaction_outs_by_hash[head]
@@ -100,27 +207,26 @@ def run(ctx):
             node.CLOCK[0] = clock
             w.public_key = keys.pks[rng.randrange(0, 5)]
             # search a nonce for which the candidate is a solution (the miner process does exactly this)
-            found = None
-            start = rng.randrange(0, 1 << 20)
-            for nonce in range(start, start + 3000):
-                w.sent.clear()
-                try:
-                    w.handle_request_scrypt_input_message(0, nonce)
-                except Exception as e:
-                    res.violations.append({"kind": "assembling a candidate raised", "error": repr(e), "clock_delta": delta})
-                    break
-                summary, height = w.sent[-1][1]
-                sh = consensus.construct_summary_hash(summary, height)
-                ev = consensus.construct_pow_evidence_after_scrypt(sh, w.coinstate, summary, height, w.mining_args[0][2])
-                cand = Block(BlockHeader(summary, ev), w.mining_args[0][2])
-                if cand.hash() < cand.target:
-                    found = (nonce, summary, height, sh, cand)
-                    break
-            if found is None:
+            # the nonce is searched outside the watcher (as the miner processes do), so that the watcher assembles
+            # exactly one candidate for this head, pool and clock: the one that wins
+            nonce = winning_nonce(cm, pool, w.public_key, clock, rng.randrange(0, 1 << 20))
+            if nonce is None:
                 res.count("no-nonce")
                 continue
-            nonce, summary, height, sh, cand = found
-            txs = w.mining_args[0][2]
+            w.sent.clear()
+            try:
+                w.handle_request_scrypt_input_message(0, nonce)
+            except Exception as e:
+                res.violations.append({"kind": "assembling a candidate raised", "error": repr(e), "clock_delta": delta})
+                continue
+            summary, height = w.sent[-1][1]
+            sh = consensus.construct_summary_hash(summary, height)
+            ev = consensus.construct_pow_evidence_after_scrypt(sh, w.coinstate, summary, height, w.mining_args[0][-1])
+            cand = Block(BlockHeader(summary, ev), w.mining_args[0][-1])
+            is_solution = cand.hash() < cand.target
+            if not is_solution:
+                res.count("candidate-differs-from-prediction")
+            txs = w.mining_args[0][-1]
             ops.append("node cand %s %d %d" % (w.public_key.hex(), clock, nonce))
             impl.append("ok %s %d %s" % (summary.serialize().hex(), height, ",".join(t.hash()[:8].hex() for t in txs)))
             before = rn.digest()
@@ -132,7 +238,7 @@ def run(ctx):
                 r = "exc"
                 err = e
             ops.append("node found %s %d" % (sh.hex(), clock))
-            impl.append("%s %s" % (r, cand.serialize().hex()))
+            impl.append("%s %s" % (r, cand.serialize().hex() if is_solution else "nosolution"))
             ops.append("node digest")
             impl.append(rn.digest())
             res.case((si, round_, cand.hash()), nontrivial=True)
@@ -153,7 +259,9 @@ def run(ctx):
             if not cand.timestamp > hd.timestamp:
                 res.violations.append({**info, "kind": "candidate timestamp not later than its parent's"})
             corner = hd.timestamp >= clock + 30
-            if r == "exc":
+            if not is_solution:
+                pass        # the watcher assembled something else than head, pool, key and clock prescribe (compared above)
+            elif r == "exc":
                 v = {**info, "kind": "the node's own full validation rejects the block its miner assembled",
                      "error": repr(err)[:200]}
                 if corner:
@@ -180,10 +288,10 @@ def run(ctx):
                 w.handle_request_scrypt_input_message(0, 1)
                 if w.sent[-1][1][0].previous_block_hash != cand.hash():
                     res.violations.append({**info, "kind": "the miner forgot its own block on the next request"})
-                tree.cs = tree.cs.add_block_no_validation(cand)
-                tree.blocks.append(cand)
+                tree.adopt(cand)
             if len(res.samples) < 4:
                 res.sample({"clock_minus_head_ts": delta, "pool": len(pool), "result": r, "height": height})
+        two_miners(ctx, res, rng, keys, tree, rn, w, ops, impl, sig_mark, si)
         rn.close()
         model = ctx.driver.ask(ops)
         kit.compare(res, ops, impl, model)
